@@ -408,6 +408,7 @@ func C13(p *core.Program, r *core.Report) {
 
 	// ---- (6) the per-bundle state is initialised once
 	checkNotifyOnce(p, r)
+	checkDuplicateLeavesRecord(p, r)
 
 	// ---- (7) one dispatching per bundle at a time
 	checkDispatchExclusive(p, r)
@@ -732,25 +733,7 @@ func checkNotifyOnce(p *core.Program, r *core.Report) {
 			// (b) behind the known-bundle test
 			why := ""
 			if !okNew {
-				for _, cd := range core.DominatingConds(c.Block()) {
-					if b, ok := cd.V.(*ssa.BinOp); ok {
-						lc, isLen := b.X.(*ssa.Call)
-						if !isLen {
-							continue
-						}
-						bi, isB := lc.Common().Value.(*ssa.Builtin)
-						if !isB || bi.Name() != "len" || !pathEndsWith(lc.Common().Args[0], "Constraints") {
-							continue
-						}
-						k, isC := core.ConstInt(b.Y)
-						if isC && k == 0 && ((b.Op == token.GTR && !cd.True) || (b.Op == token.EQL && cd.True) || (b.Op == token.NEQ && !cd.True)) {
-							okNew = true
-						}
-					}
-					if _, ok := core.CondIsCall(cd, routingPkg+".BundleDescriptor.HasConstraints"); ok && !cd.True {
-						okNew = true
-					}
-				}
+				okNew = behindNewBundleTest(c.Block())
 				if !okNew {
 					why = "this announcement can be reached for a bundle the node already holds (no IdKeeper.update before it, not behind len(bp.Constraints)==0); overwriting implementations: " + strings.Join(overwriters, ", ")
 				}
@@ -884,4 +867,103 @@ func checkPropertiesPersisted(p *core.Program, r *core.Report) {
 	}
 	r.Count("Properties edits in routing code", n)
 	r.Min("Properties edits in routing code", 6)
+}
+
+// isNewBundleCond: the condition tests "the descriptor has constraints", i.e. whether the bundle is already stored;
+// isNew says that the edge taken means "no constraints: a new bundle".
+func isNewBundleCond(cd core.Cond) (isTest bool, isNew bool) {
+	if b, ok := cd.V.(*ssa.BinOp); ok {
+		lc, isLen := b.X.(*ssa.Call)
+		if !isLen {
+			return false, false
+		}
+		bi, isB := lc.Common().Value.(*ssa.Builtin)
+		if !isB || bi.Name() != "len" || !pathEndsWith(lc.Common().Args[0], "Constraints") {
+			return false, false
+		}
+		k, isC := core.ConstInt(b.Y)
+		if !isC || k != 0 {
+			return false, false
+		}
+		switch b.Op {
+		case token.GTR, token.NEQ:
+			return true, !cd.True
+		case token.EQL, token.LEQ:
+			return true, cd.True
+		}
+		return false, false
+	}
+	if _, ok := core.CondIsCall(cd, routingPkg+".BundleDescriptor.HasConstraints"); ok {
+		return true, !cd.True
+	}
+	return false, false
+}
+
+func behindNewBundleTest(b *ssa.BasicBlock) bool {
+	for _, cd := range core.DominatingConds(b) {
+		if t, isNew := isNewBundleCond(cd); t && isNew {
+			return true
+		}
+	}
+	return false
+}
+
+func behindKnown(b *ssa.BasicBlock) bool {
+	for _, cd := range core.DominatingConds(b) {
+		if t, isNew := isNewBundleCond(cd); t && !isNew {
+			return true
+		}
+	}
+	return false
+}
+
+// checkDuplicateLeavesRecord: the descriptor of a received bundle is loaded from the store when the bundle is already
+// known. Writing it back (BundleDescriptor.Sync reads the record, sets three properties, writes the record) happens in
+// the Core's handler goroutine, outside the per-bundle dispatching mark, and restores the algorithms' lists of served
+// peers to what they were when the record was read: a forwarding or failure report in between is undone. Necessary:
+// on the reception path a descriptor is synchronised only when it is new (no constraints), before Core.receive.
+func checkDuplicateLeavesRecord(p *core.Program, r *core.Report) {
+	sync := p.Func(routingPkg, "BundleDescriptor", "Sync")
+	n := 0
+	fns := []*ssa.Function{p.Func(routingPkg, "", "NewBundleDescriptorFromBundle"), p.Func(routingPkg, "Core", "handler")}
+	seen := map[*ssa.Function]bool{}
+	for _, fn := range fns {
+		if seen[fn] {
+			continue
+		}
+		seen[fn] = true
+		core.EachInstr(fn, func(in ssa.Instruction) {
+			c, ok := in.(ssa.CallInstruction)
+			if !ok || core.Callee(c) != sync {
+				return
+			}
+			n++
+			r.Check(behindNewBundleTest(in.Block()), "stale-write/"+fname(fn)+"/sync-only-when-new", "on the reception path a bundle's descriptor is written to the store only when the bundle is new (the descriptor carries no constraints); the record of a known bundle, which holds the peers already served, is not written back from a copy read earlier", p.Pos(in.Pos()), "", "Sync is reachable for the descriptor of a bundle that is already stored: a read-modify-write of its record outside the dispatching mark")
+		})
+	}
+	r.Min("reception-path Sync sites", 2)
+	r.Count("reception-path Sync sites", n)
+
+	// a duplicate reception names another peer that holds the bundle; it is not recorded anywhere (known finding)
+	rcv := p.Func(routingPkg, "Core", "receive")
+	told := true
+	var at ssa.Instruction
+	for _, ret := range core.Returns(rcv) {
+		if !behindKnown(ret.Block()) {
+			continue
+		}
+		at = ret
+		if !core.MustPassBefore(ret, func(i ssa.Instruction) bool {
+			c, ok := i.(*ssa.Call)
+			return ok && c.Common().IsInvoke() && core.TypeIs(c.Common().Value.Type(), routingPkg, "Algorithm") && behindKnown(i.Block())
+		}) {
+			told = false
+		}
+	}
+	key := "previous-node/" + fname(rcv) + "/duplicate-reception"
+	if at == nil {
+		r.Unknown(key, "the known-bundle branch of receive was located", p.Pos(rcv.Pos()), "no return behind the known-bundle test")
+		return
+	}
+	r.Check(told, key, "a second reception of a held bundle tells the routing algorithm the duplicate's previous node, so that the bundle is not offered to that peer", p.Pos(at.Pos()), "", "receive drops a duplicate without consulting the routing algorithm: the peer that sent the duplicate is not recorded as having the bundle, the next dispatching transmits the bundle to it (repro/audit2F_C13_duplicate_previous_node.txt)")
 }
